@@ -65,7 +65,12 @@ class Sys(e1.TimedSys):
         self.max_deviations = cfg.get("deviations", 0)
         self.seam = RandomSeam(Choice())
         self.seam.__enter__()
-        self.prot = make_sd(self.loop, timings(CYCLIC_OFFER_DELAY=0, REPETITIONS_MAX=0))
+        if cfg.get("cyclic"):
+            # cyclic offers with an initial wait phase: subscriptions accepted before the first offer, stops at any phase
+            tm = timings(CYCLIC_OFFER_DELAY=1, REPETITIONS_MAX=0, INITIAL_DELAY_MIN=0.125, INITIAL_DELAY_MAX=0.125)
+        else:
+            tm = timings(CYCLIC_OFFER_DELAY=0, REPETITIONS_MAX=0)
+        self.prot = make_sd(self.loop, tm)
         self.log = []
         self.nlog = 0
         self.model = Model()
@@ -329,6 +334,9 @@ def configs(ctx):
     alias = [(c, n, "n") for c in ("C1", "C5", "C3", "C4") for n in ("sub-a2", "stop-a")] + [("C3", "sub-a2", "r"), ("C5", "stop-a", "r")]
     out.append(("aliased-subscriber-addresses", dict(sid=sid, advs=(None, "next"), menu=alias, controls=(), deviations=0,
                                                      fine=0), ctx.pick(5, 7)))
+    cyc = [("C1", n, "n") for n in ("sub-a2", "sub-ainf", "stop-a")]
+    out.append(("cyclic-offers-lifecycle", dict(sid=sid, advs=(None, "half", "next"), menu=cyc, controls=("announcer", "service"),
+                                                deviations=1, fine=0, cyclic=True), CLOSURE))
     lifecycle = [("C1", n, "n") for n in ("sub-a2", "sub-c2", "stop-a")]
     out.append(("lifecycle", dict(sid=sid, advs=base, menu=lifecycle,
                                   controls=("reject", "announcer", "service", "connlost"),
